@@ -44,6 +44,9 @@ type funcContract struct {
 	modIf *modIfClause
 	// witnesses: instantiation hints (terms over the parameters / entry state)
 	witnesses []clause
+	// goSync: `go f()` statements of this function are modelled as synchronous calls
+	// (the goroutine is joined before its results are used); an assumption, listed
+	goSync bool
 	// preserves: heap cells excluded from a coarse `modifies` (heap, pkg(..), elems)
 	preserves []string
 	// ghost code by decree: ghostWrites are havocked at every return of the function
@@ -290,7 +293,7 @@ func newContractSet() *contractSet {
 var clauseKeywords = map[string]bool{
 	"prop": true, "requires": true, "ensures": true, "modifies": true, "loop": true, "trusted": true,
 	"pure": true, "panics-if": true, "nopanic": true, "maypanic": true, "mode": true, "decreases": true, "refines": true,
-	"noframe": true, "witness": true, "modifies-if": true, "using": true, "noinv": true, "rec": true, "preserves": true, "ghost-writes": true, "defines": true,
+	"noframe": true, "go-sync": true, "witness": true, "modifies-if": true, "using": true, "noinv": true, "rec": true, "preserves": true, "ghost-writes": true, "defines": true,
 }
 
 var reLoop = regexp.MustCompile(`^(\d+)\s*:\s*(invariant|decreases)\s+(.*)$`)
@@ -550,6 +553,8 @@ func (cs *contractSet) loadContractFile(path, pkgPath string) error {
 					fc.maypanic = true
 				case "noframe":
 					fc.noframe = true
+				case "go-sync":
+					fc.goSync = true
 				case "noinv":
 					fc.noinv = true
 				case "refines":
